@@ -400,6 +400,15 @@ impl Process {
     /// process.
     #[must_use = "You must send SIGCHLD to the parent if set_state returns true"]
     pub fn set_state(&mut self, state: ProcessState) -> bool {
+        // A terminated process never changes its state again: a signal sent
+        // to a process that has already exited (or been killed) must not
+        // overwrite the status its parent is going to see.
+        if let ProcessState::Halted(result) = self.state
+            && !result.is_stopped()
+        {
+            return false;
+        }
+
         let old_state = std::mem::replace(&mut self.state, state);
 
         if old_state == state {
